@@ -85,6 +85,11 @@ type vfC07Rec struct {
 	// (metamorphic oracle: the form never changes with the storage location).
 	firstSeen [2]map[string]any
 	seenWhere [2]string
+
+	// expected API form per anonymisation setting (the client registry of a
+	// case never changes)
+	want     [2]map[string]any
+	optional [2]map[string]bool
 }
 
 // vfC07Host is the documented normal form of a question name.
@@ -455,7 +460,11 @@ func vfC07ASCII(s string) (ok bool) {
 // vfC07RefTerm: a term selects an entry when the domain name, the client's
 // address, its ClientID or its name contains it (equals it, if quoted),
 // ignoring case; a Unicode domain term also matches the IDNA form of the name.
-func vfC07RefTerm(r *vfC07Rec, clients vfC07Clients, rawTerm string) (match bool) {
+// The result is 1 selected, 0 not selected, -1 open: an ASCII term that holds a
+// malformed or partial "xn--" label has no documented IDNA form (the search is
+// documented not to find parts of IDNA labels), so what else it may match is
+// left open.
+func vfC07RefTerm(r *vfC07Rec, clients vfC07Clients, rawTerm string) (sel int) {
 	term, strict := vfC07Quoted(rawTerm)
 	lt := strings.ToLower(term)
 
@@ -469,25 +478,25 @@ func vfC07RefTerm(r *vfC07Rec, clients vfC07Clients, rawTerm string) (match bool
 	for _, f := range fields {
 		lf := strings.ToLower(f)
 		if strict && lf == lt {
-			return true
+			return 1
 		} else if !strict && strings.Contains(lf, lt) {
-			return true
+			return 1
 		}
 	}
 
-	if !vfC07ASCII(lt) {
-		a, err := idna.ToASCII(lt)
-		if err == nil && a != "" {
-			h := r.host()
-			if strict && h == a {
-				return true
-			} else if !strict && strings.Contains(h, a) {
-				return true
+	a, err := idna.ToASCII(lt)
+	if a != "" && a != lt {
+		h := r.host()
+		if (strict && h == a) || (!strict && strings.Contains(h, a)) {
+			if err == nil && !vfC07ASCII(lt) {
+				return 1
 			}
+
+			return -1
 		}
 	}
 
-	return false
+	return 0
 }
 
 // vfC07Statuses are the documented values of response_status.
@@ -565,14 +574,21 @@ func (f vfC07Filter) String() (s string) {
 
 // sel: 1 selected, 0 not selected, -1 open.
 func (f vfC07Filter) sel(r *vfC07Rec, clients vfC07Clients) (sel int) {
-	if f.Term != "" && !vfC07RefTerm(r, clients, f.Term) {
-		return 0
+	sel = 1
+	if f.Term != "" {
+		sel = vfC07RefTerm(r, clients, f.Term)
 	}
-	if f.Status != "" {
-		return vfC07RefStatus(r, f.Status)
+	if sel == 0 || f.Status == "" {
+		return sel
+	}
+	switch st := vfC07RefStatus(r, f.Status); {
+	case st == 0:
+		return 0
+	case st == -1:
+		return -1
 	}
 
-	return 1
+	return sel
 }
 
 // ---- generators ----
